@@ -186,3 +186,63 @@ package fs
 //@   at call copyDirectoryOnly: dest_dir: arg0 == parentDir.dstPath
 //@   at call copier.copyFileInfo: own_source_metadata: arg3 == parentDir.dstPath && created
 //@   at call copyXAttrs: own_source_xattrs: arg0 == parentDir.dstPath && arg1 == parentDir.srcPath && created
+
+// content copy: the source is opened (follows links: callers only pass paths
+// that Lstat reported as regular files), the target created
+//@ func copyFile
+//@   property C13 C14
+//@   modifies array byte, global bufferPool
+//@   effects Open Create CopyRange SendMsg MuLock MuUnlock Progress
+//@   note the extra effects come from the shared assumed contract of io.CopyBuffer (its Writer may be a protocol sender elsewhere)
+//@   ensures opened: cnt(Open) == old(cnt(Open)) + 1 && arg(Open, 0) == source
+//@   ensures created: cnt(Create) <= old(cnt(Create)) + 1 && (cnt(Create) > old(cnt(Create)) ==> arg(Create, 0) == target && when(Open) < when(Create))
+//@   ensures ok: result == nil ==> cnt(Create) == old(cnt(Create)) + 1
+
+// bytes written never exceed the source size; termination is not claimed
+// (needs n > 0 from copy_file_range, a kernel fact)
+//@ func copyFileContent
+//@   property C13
+//@   safety +overflow
+//@   requires dst != nil && src != nil
+//@   modifies array byte, global bufferPool
+//@   effects CopyRange SendMsg MuLock MuUnlock Progress
+//@   loop 0 invariant bounds: 0 <= written && (size >= 0 ==> written <= size)
+
+// a directory is created now only if it is selected itself; the ancestor stack
+// is restored on every return path
+//@ func copier.copyDirectory
+//@   property C16 C13 C15
+//@   requires c != nil && stat != nil && c.inodes != nil
+//@   modifies c.parentDirs, c.parentDirs[*], c.inodes[*], array byte, global bufferPool
+//@   effects *
+//@   loop 0 invariant stack: len(c.parentDirs) == old(len(c.parentDirs)) + 1 && (ref(c.parentDirs) == old(ref(c.parentDirs)) || fresh(c.parentDirs))
+//@   ensures stack: len(c.parentDirs) == old(len(c.parentDirs)) && (ref(c.parentDirs) == old(ref(c.parentDirs)) || fresh(c.parentDirs))
+//@   ensures notdir: !stat.IsDir() ==> result1 != nil && clk() == old(clk())
+//@   at call copyDirectoryOnly: only_if_selected: include && arg0 == dst
+//@   at call copier.notifyChange: only_if_selected: include && arg1 == dst
+//@   at call os.ReadDir: pushed: len(c.parentDirs) == old(len(c.parentDirs)) + 1 && c.parentDirs[len(c.parentDirs)-1].srcPath == src && c.parentDirs[len(c.parentDirs)-1].dstPath == dst && c.parentDirs[len(c.parentDirs)-1].copied == include
+
+// The per-entry copy. Source and target are inspected with Lstat only; nothing
+// is done for an unselected non-directory; a selected entry first clears the
+// way (always-replace), creates pending ancestors, and for non-directories
+// empties the target; metadata (owner, mode, times) is applied before xattrs
+// and for directories only after the children; a non-directory is notified once.
+//@ func copier.copy
+//@   property C13 C14 C15 C16
+//@   requires c != nil && c.inodes != nil
+//@   modifies c.parentDirs, c.parentDirs[*], c.inodes[*], array byte, global bufferPool
+//@   effects *
+//@   ensures stack: len(c.parentDirs) == old(len(c.parentDirs)) && (ref(c.parentDirs) == old(ref(c.parentDirs)) || fresh(c.parentDirs))
+//@   at call copier.removeTargetIfNeeded: lstat_only: cnt(Stat) == old(cnt(Stat)) && cnt(Lstat) == old(cnt(Lstat)) + 2 && include
+//@   at call copier.include: not_for_root: srcComponents != ""
+//@   at call copier.createParentDirs: selected: include
+//@   at call ensureEmptyFileTarget: selected_file: include && !fi.IsDir() && arg0 == target
+//@   at call copier.copyDirectory: dir: fi.IsDir() && arg7 == include
+//@   at call getLinkSource: regular: include && fi.Mode() & os.ModeType == 0
+//@   at call copyFile: regular: include && fi.Mode() & os.ModeType == 0 && arg0 == src && arg1 == target
+//@   at call os.Link: hardlink: include && arg1 == target
+//@   at call os.Symlink: symlink_copied_not_followed: include && fi.Mode() & os.ModeSymlink == os.ModeSymlink && arg1 == target && cnt(Readlink) == old(cnt(Readlink)) + 1 && arg(Readlink, 0) == src
+//@   at call copyDevice: special: include && arg0 == target
+//@   at call copier.copyFileInfo: metadata_target: arg3 == target
+//@   at call copyXAttrs: after_metadata: arg0 == target && arg1 == src && cnt(Utimes) > old(cnt(Utimes)) && arg(Utimes, 0) == target && when(Utimes) == clk()
+//@   at call copier.notifyChange: nondir_once: notify && !fi.IsDir() && arg1 == target
